@@ -609,6 +609,25 @@ func (ex *Exec) binop(st *State, op token.Token, xv, yv Val, xt, rt types.Type, 
 			}
 			return Sub(x, y)
 		case token.MUL:
+			// multiplication by a large constant (unit conversions such as n*time.Second) is the one
+			// place where 64-bit overflow is modelled exactly: the product wraps like the machine's
+			if !isUnsigned(xt) && intBits(xt) == 64 {
+				_, xn := x.numeral()
+				cy, yn := y.numeral()
+				cx, _ := x.numeral()
+				if xn != yn {
+					c := cy
+					if xn {
+						c = cx
+					}
+					if c != nil && new(big.Int).Abs(c).Cmp(big.NewInt(65536)) >= 0 {
+						p := Mul(x, y)
+						lo, hi := BigT(new(big.Int).Neg(pow2(63))), BigT(pow2(63))
+						wrapped := Sub(App(SInt, "mod", Add(p, BigT(pow2(63))), BigT(pow2(64))), BigT(pow2(63)))
+						return Ite(And(Le(lo, p), Lt(p, hi)), p, wrapped)
+					}
+				}
+			}
 			return Mul(x, y)
 		case token.QUO:
 			ex.safe(st, Neq(y, IntT(0)), instr, "integer divide by zero")
